@@ -642,6 +642,29 @@ func scenXfer(r *Run) {
 			r.S.Stats.Probe("clean-path-across-clock-wrap")
 		}
 	}
+	if r.Spec.Stratum == "fec-window" {
+		// C04 at session level with FEC: the receiver's window shrinks (small
+		// window, slow reader) while data packets are lost and reconstructed; a
+		// reconstructed packet is OLDER than packets already received, so the
+		// window it advertises must not replace the newer one
+		const cs = "cfg"
+		t := r.S.Tape
+		if o.World.FecD == 0 {
+			o.World.FecD, o.World.FecP = 2+t.Choose(cs, 3), 1+t.Choose(cs, 2)
+			o.growTinyMTU(8)
+		}
+		o.World.Mismatch = false
+		o.CfgB.RcvWnd = 2 + t.Choose(cs, 10)
+		o.CfgA.SetNoDelay, o.CfgA.NC = true, 1
+		o.CfgA.NoDelay, o.CfgA.Interval, o.CfgA.Resend = t.Choose(cs, 2), 10+t.Choose(cs, 40), t.Choose(cs, 3)
+		o.CfgA.RateLimit, o.CfgB.RateLimit = 0, 0
+		o.RModeB = IOMode{Kind: 1 + t.Choose(cs, 2), PausePM: 300 + t.Choose(cs, 600), PauseUs: 1000 + t.Skewed(cs, 0, 100000)}
+		o.Link.LossPM = 50 + t.Choose(cs, 250)
+		o.Link.Outages, o.Link.GEGoodBad = nil, 0
+		if o.BytesAB < 30000 {
+			o.BytesAB += 30000
+		}
+	}
 	if r.Spec.Stratum == "heal" {
 		const cs = "cfg"
 		t := r.S.Tape
@@ -774,6 +797,9 @@ func scenXfer(r *Run) {
 		}
 	}
 	x := NewXfer(r, o)
+	if r.Spec.Prop == "C04" {
+		x.InstallAdmissionOracle()
+	}
 	if r.Spec.Stratum == "wrap" {
 		// runs before the writers' first Write (those are events of their own)
 		a, b := x.A, x.B
@@ -878,6 +904,76 @@ func scenXfer(r *Run) {
 		r.S.Run(x.Done)
 	}
 	x.Finish()
+}
+
+// InstallAdmissionOracle (C04 at session level): a NEW sequence number may be put
+// on the wire only while the segments outstanding stay within min(send window,
+// the window the peer advertised last). "Advertised last" is the harness's own
+// view: the wnd field of the last segment of the last regular (not parity, not
+// out-of-band) datagram DELIVERED to the sender - a packet the FEC decoder
+// reconstructs is older than what has been received and tells the sender
+// nothing new. Before anything is delivered a sender assumes 32. The congestion
+// window only lowers the limit and is not used here (the raw-core oracle does).
+func (x *Xfer) InstallAdmissionOracle() {
+	s, w := x.S, x.W
+	lastWnd := map[string]int{} // emitting flow "sender>peer" -> window shown to the sender
+	prevDeliver := w.Net.OnDeliver
+	w.Net.OnDeliver = func(to *SimConn, from string, data []byte) {
+		if prevDeliver != nil {
+			prevDeliver(to, from, data)
+		}
+		src := w.Net.conns[from]
+		if src == nil {
+			return
+		}
+		fc := w.connFEC[src.id]
+		f, err := DecodeFrame(w.Ref, fc[0] > 0 && fc[1] > 0, data)
+		if err != nil || f.OOB || len(f.Segs) == 0 || (f.HasFEC && f.FecType == wFecParity) {
+			return
+		}
+		lastWnd[to.addrStr+">"+from] = int(f.Segs[len(f.Segs)-1].Wnd)
+	}
+	seen := map[string]map[uint32]bool{}
+	base := s.OnEmit
+	s.OnEmit = func(p *OutPkt) {
+		base(p)
+		if p.Frame == nil || p.Post || s.Viol != nil {
+			return
+		}
+		key := p.Src.addrStr + ">" + p.Dst
+		ep := w.byFlow[key]
+		if ep == nil || ep.Closed || ep.CloseInvoked {
+			return
+		}
+		m := seen[key]
+		if m == nil {
+			m = map[uint32]bool{}
+			seen[key] = m
+		}
+		newSn := 0
+		for _, sg := range p.Frame.Segs {
+			if sg.Cmd == wCmdPush && !m[sg.Sn] {
+				m[sg.Sn] = true
+				newSn++
+			}
+		}
+		if newSn == 0 {
+			return
+		}
+		shown, ok := lastWnd[key]
+		if !ok {
+			shown = 32
+		}
+		st := ep.StateLite()
+		out := int(int32(st.SndNxt - st.SndUna))
+		lim := min(ep.sndWndCfg(), shown)
+		if shown == 0 {
+			s.Stats.Probe("admission-checked-at-zero-window")
+		}
+		if out > lim && out > 0 {
+			s.Fail("C04", "admission", "new-segment-beyond-advertised-window", "%s: new sn put on the wire with %d outstanding; min(send window %d, window last advertised to it %d) = %d", ep.Name, out, ep.sndWndCfg(), shown, lim)
+		}
+	}
 }
 
 // closeYieldSites are the lock-free points of the library's goroutines (and of
